@@ -18,7 +18,8 @@ SCALARS = {
     "float": ["0.5f", "-3.25f", "640.0f"],
     "double": ["0.125", "-999.5", "2.5", "1000.0"],
 }
-RETS = ["int", "long long", "unsigned long long", "double", "bool", "unsigned char", "short"]
+RETS = ["int", "long long", "unsigned long long", "double", "bool", "unsigned char", "short", "long", "unsigned long", "unsigned long", "unsigned int",
+        "unsigned short", "signed char", "float"]
 
 
 class M:
@@ -47,6 +48,10 @@ def acc_expr(t, n):
 def ret_expr(ret):
     if ret == "double":
         return "(double)(acc % 100000ULL) / 8.0"
+    if ret == "float":
+        return "(float)(acc % 4096ULL) / 8.0f"
+    if ret in ("unsigned long", "long"):
+        return "(%s)(acc | ((acc & 2ULL) << 62))" % ret      # the top bit is set in half of the results
     if ret == "bool":
         return "(acc & 1ULL) != 0"
     if ret == "E0":
@@ -434,15 +439,15 @@ def py_arg(t, v):
 
 
 def py_ret_cmp(ret, tag, d):
-    if ret == "double":
-        return 'chk("%s", r != nullptr && PyFloat_AsDouble(r) == (double)(%s));' % (tag, d)
+    if ret in ("double", "float"):
+        return 'chk("%s", r != nullptr && PyFloat_AsDouble(r) == (double)(%s) && !PyErr_Occurred());' % (tag, d)
     if ret == "bool":
         return 'chk("%s", r != nullptr && (PyObject_IsTrue(r) == 1) == (bool)(%s));' % (tag, d)
     if ret in ("unsigned long long", "unsigned long"):
-        return 'chk("%s", r != nullptr && PyLong_AsUnsignedLongLong(r) == (unsigned long long)(%s));' % (tag, d)
+        return 'chk("%s", r != nullptr && PyLong_AsUnsignedLongLong(r) == (unsigned long long)(%s) && !PyErr_Occurred());' % (tag, d)
     if ret in ("const char *", "std::string"):
         return 'chk("%s", r != nullptr && PyUnicode_Check(r) && std::string(PyUnicode_AsUTF8(r)) == std::string(%s));' % (tag, d)
-    return 'chk("%s", r != nullptr && PyLong_AsLongLong(r) == (long long)(%s));' % (tag, d)
+    return 'chk("%s", r != nullptr && PyLong_AsLongLong(r) == (long long)(%s) && !PyErr_Occurred());' % (tag, d)
 
 
 def gen_py_driver(lib, wrappers, rng, string_mode=False):
